@@ -173,13 +173,20 @@ PROPS["C14"] = dict(
 )
 
 PROPS["C16"] = dict(
-    producers=[("pyvc.wrapper_check", "wrapper_items")],
-    level="exploration",
-    technique="bounded: regions vs flood fill, exhaustive over small binary rasters and random larger ones; contract-level obligations only for the wrapper (kernel arguments, identity of coords/dims/attrs)",
-    not_decided=["_area_connectivity (two-pass labelling with global relabelling, np.where / None-typed locals) is outside pyvc's subset: 'adjacent equal cells share a label' and 'same label => connected' are bounded only"],
-    assumptions=[],
+    producers=[("pyvc.wrapper_check", "wrapper_items"), ("pyvc.table_check", "call_items")],
+    level="proof",
+    technique="contract-based deductive verification of the real two-pass labelling kernel _area_connectivity (pyvc VCs -> z3): loop "
+              "invariants over both passes and the relabelling loops with a ghost labelling parameter; postconditions: NaN cells stay NaN, "
+              "labels >= 1, n-adjacent equal cells share a label, cells sharing a label share the class of every adjacency-closed "
+              "labelling; path lemma (base + step); wrapper term check (kernel arguments, neighbourhood validation, coords/dims/attrs); "
+              "flood-fill comparison as bounded stand-in",
+    not_decided=["rasters outside the contract's domain: +-inf cells (np.abs(inf - inf) is NaN, so two adjacent inf cells never match) and "
+                 "value sets on which the kernel's isclose test (atol 1e-8, rtol 1e-5) is not equality, e.g. integers above 1e5 one apart: bounded only",
+                 "labels are stored in an array of the input's dtype: float32 rasters with more than 2**24 regions, small integer dtypes (machine arithmetic treated as mathematical)"],
+    assumptions=["np.where(c)[0] of a 1-D boolean array lists exactly its true indices in increasing order (assumed NumPy contract)",
+                 "meta-argument (DESIGN): induction over the path for 'connected => same label' (base and step are lemma C16.path); the "
+                 "connected-component labelling itself is adjacency-closed, which instantiates the ghost parameter for 'same label => connected'"],
     trusted_base=[],
-    allow_no_contracts=True,
     bounded=[("c16_regions_small_grids", {"quick": 60, "thorough": 900}), ("c16_regions_random", {"quick": 30, "thorough": 300})],
 )
 PROPS["C15"] = dict(
